@@ -112,3 +112,101 @@ func HarnessC11UpdateData() {
 	}
 	verifReach("C11.UpdateData")
 }
+
+// HarnessC11Large: update data on a stump with 2^k leaves (k a parameter, up to 62): one perfect tree
+// whose root and whose rightmost leaf's proof are symbolic hash terms.  Optionally the rightmost leaf
+// is deleted (del=1), then A fresh leaves are added.  Expected values come from closed forms and from
+// RM run on the A added leaves alone, shifted to the big forest's numbering.
+func HarnessC11Large() {
+	k := uint8(verifParam("k", 33))
+	n := uint64(1) << k
+	del := verifParam("del", 0) == 1
+	// the rightmost leaf and its proof (bottom-up); root = fold
+	leaf := verifLeafHash("leaf")
+	proof := make([]Hash, k)
+	cur := leaf
+	for i := range proof {
+		proof[i] = verifNondetHash("proof")
+		verifAssume(proof[i] != Hash{})
+		cur = refParent(proof[i], cur)
+	}
+	st := Stump{Roots: []Hash{cur}, NumLeaves: n}
+	// fewer than 2^k additions: the added leaves form their own trees and never merge with the big one
+	maxA := verifParam("A", 3)
+	if k < 8 && maxA > (1<<k)-1 {
+		maxA = (1 << k) - 1
+	}
+	na := verifChoose("adds", 0, maxA)
+	small := &refForest{}
+	var adds []Hash
+	for i := 0; i < na; i++ {
+		h := verifLeafHash("add")
+		verifAssume(h != leaf)
+		for j := range adds {
+			verifAssume(h != adds[j])
+		}
+		adds = append(adds, h)
+		small.leaves = append(small.leaves, refLeaf{hash: h, alive: true})
+	}
+	var delHashes []Hash
+	var bp Proof
+	if del {
+		delHashes = []Hash{leaf}
+		bp = Proof{Targets: []uint64{n - 1}, Proof: proof}
+	}
+	ud, err := st.Update(delHashes, adds, bp)
+	verifAssert(err == nil, "C11.large.accepts")
+	if err != nil {
+		return
+	}
+	verifAssert(ud.PrevNumLeaves == n, "C11.large.PrevNumLeaves")
+	rowsAfter := refRows(n + uint64(na))
+	// deletions: the path of the rightmost leaf in the 2^k numbering
+	if del {
+		verifAssert(len(ud.NewDelPos) == int(k)+1 && len(ud.NewDelHash) == int(k)+1, "C11.large.NewDel.len")
+		if len(ud.NewDelPos) == int(k)+1 && len(ud.NewDelHash) == int(k)+1 {
+			after := Hash{}
+			for r := uint8(0); r <= k; r++ {
+				verifAssert(ud.NewDelPos[r] == refStart(r, k)+((n-1)>>r), "C11.large.NewDelPos")
+				verifAssert(ud.NewDelHash[r] == after, "C11.large.NewDelHash")
+				if r < k {
+					if after == (Hash{}) {
+						after = proof[r]
+					} else {
+						after = refParent(proof[r], after)
+					}
+				}
+			}
+		}
+	} else {
+		verifAssert(len(ud.NewDelPos) == 0, "C11.large.NewDel.empty")
+	}
+	verifAssert(len(ud.ToDestroy) == 0, "C11.large.ToDestroy.empty")
+	// additions: RM on the added leaves alone, shifted behind the 2^k leaves
+	sv := small.view()
+	var wantPos []uint64
+	var wantHash []Hash
+	for x := range sv.nodes {
+		nd := sv.nodes[x]
+		if nd.slot >= 0 || nd.parent >= 0 {
+			off := nd.pos - refStart(nd.row, sv.rows)
+			wantPos = append(wantPos, refStart(nd.row, rowsAfter)+(n>>nd.row)+off)
+			wantHash = append(wantHash, nd.hash)
+		}
+	}
+	for i := 1; i < len(wantPos); i++ {
+		for j := i; j > 0 && wantPos[j] < wantPos[j-1]; j-- {
+			wantPos[j], wantPos[j-1] = wantPos[j-1], wantPos[j]
+			wantHash[j], wantHash[j-1] = wantHash[j-1], wantHash[j]
+		}
+	}
+	verifAssert(len(ud.NewAddPos) == len(wantPos) && len(ud.NewAddHash) == len(wantPos), "C11.large.NewAdd.len")
+	if len(ud.NewAddPos) == len(wantPos) && len(ud.NewAddHash) == len(wantPos) {
+		for i := range wantPos {
+			verifAssert(ud.NewAddPos[i] == wantPos[i], "C11.large.NewAddPos")
+			verifAssert(ud.NewAddHash[i] == wantHash[i], "C11.large.NewAddHash")
+		}
+	}
+	verifAssert(st.NumLeaves == n+uint64(na), "C11.large.numLeaves")
+	verifReach("C11.large")
+}
